@@ -205,6 +205,40 @@ CLAIMS['C07'] = dict(
     'sensitive guard analysis + grading-end shape rules',
     engine='E4-panels')
 
+CLAIMS['C03'] = dict(
+    category='other',
+    text='Decides the mutual-consistency clause: four term-combination '
+    'sites proportional to V + M0 - g, one element list per iteration and '
+    'rows = test, pointwise evaluation = time integral of the kernel whose '
+    'double integral is the entry (CAS), every shipped M0u0 satisfies the '
+    'heat equation with initial trace u0 on its own domain and 0 outside '
+    '(CAS, complex erf forms), g-linform = element integral of g, problem/'
+    'domain pairing, sound causality skip in the residual, closed-form '
+    'routing only on polygons.  The magnitude bound on the element mean of '
+    'the residual is numerical and not decided.',
+    design_ref='DESIGN.md section 3 E2/E3/E7 (K8, R-signs), section 4 C03',
+    note='Trusted: ast, sympy, the erf->sign rewriting at t->0+, linear '
+    'fact domain.  Not decided: |int_E r| <= 5e-5 int_E |r|.',
+    technique='linear-form sign analysis + index-space def-use + CAS '
+    'certificates (heat equation, initial trace, element integrals)',
+    engine='E7-signs')
+CLAIMS['C20'] = dict(
+    category='other',
+    text='Child order, flattening, np.repeat prolongation, fine matrix/'
+    'load/solve index spaces and energy norm of the h-h/2 estimator; '
+    'Mat(fine, coarse) @ Phi, sign patterns computed from the extracted '
+    'child order, indicator formula with c^T S c scaling and the e_c/2 '
+    'split of the hierarchical estimator; sign conventions; Prolongate as '
+    'nearest-ancestor copy.  Numerical equality with a really bisected '
+    'mesh is not decided.',
+    design_ref='DESIGN.md section 3 E6/E7 (R-children, R-hier), section 4 '
+    'C20',
+    note='Trusted: ast, numpy semantics of repeat and @.  Not decided: '
+    'numerical equality with real bisection; positivity of the scaling '
+    '(C13).',
+    technique='symbolic child geometry + index-space typing + coefficient-'
+    'pattern comparison on the AST', engine='E7-signs')
+
 PENDING = 'rule set not yet implemented in this build (see DESIGN.md Appendix F for the order)'
 NA = {
     'C13':
@@ -234,6 +268,9 @@ ENGINES = [
      'panel/interval order analysis of the recursive splitters and of '
      'bilform (partition, precondition, apex, binding, straightness); '
      'hier.py virtual children'),
+    ('E7-signs', 'stbem_static/signs.py',
+     'linear sign forms, driver index spaces; hier.py (children, patterns, '
+     'prolongation); problems_cert.py (K8/K9 certificates)'),
     ('E3-causal', 'stbem_static/causal.py',
      'causality guards and time-difference positivity over absint.py '
      '(path facts, Fourier-Motzkin entailment); kernels.py CAS certificates; '
